@@ -202,6 +202,8 @@ def check(case, rec):
     from nptdms import TdmsFile
     if 'graph' in case:
         return check_scaled(case, rec)
+    if 'short_mid' in case:
+        return check_short_mid(case, rec)
     if 'raw_ts' not in case:
         return check_daqmx(case, rec)
     fs = case['fs']
@@ -381,6 +383,106 @@ def check_scaled(case, rec):
 
 
 @st.composite
+def short_mid_cases(draw):
+    """a segment that is NOT the last one ends in an incomplete chunk (its lead-in states the shortened size), as after an
+    interrupted write that was later appended to; fixed-width types only"""
+    fs = draw(S.file_spec(min_segments=2, max_segments=4, max_channels=3, max_n=4, max_chunks=3, props=False, zero_n=False, absent=False,
+                          types=['i8', 'i16', 'i32', 'u64', 'f32', 'f64', 'bool', 'ts', 'c64'], values='unique',
+                          names='simple', nodata_entries=False))
+    return {'fs': fs, 'short_mid': [draw(st.integers(0, 100)), draw(st.integers(0, 10 ** 6))]}
+
+
+def check_short_mid(case, rec):
+    """no model of the shortened content is assumed: every way of obtaining a channel's data must agree with the others"""
+    from nptdms import TdmsFile
+    from vf.model import tsize, split_path
+    from vf.observe import le_bytes, raw_ts_pairs
+    fs = case['fs']
+    segs = fs['segments']
+    k = case['short_mid'][0] % (len(segs) - 1)
+    seg = segs[k]
+    size = sum(n * tsize(t) for (_p, t, n) in seg.get('active') or []) * seg.get('nchunks', 0)
+    if size <= 1:
+        return
+    trim = 1 + case['short_mid'][1] % (size - 1)
+    phys = {'segments': [dict(sg, trim_raw=trim) if i == k else sg for i, sg in enumerate(segs)]}
+    data, _i, _l = encode_file(phys)
+    rec.nontrivial(True)
+    rec.label('short_final_chunk_in_middle_segment', 'interleaved' if seg.get('interleaved') else 'contiguous',
+              'chunks=%d' % seg.get('nchunks', 0))
+
+    def norm(a):
+        if len(a) == 0:
+            return b''
+        if hasattr(a, 'dtype') and a.dtype.names:
+            import struct
+            return b''.join(struct.pack('<qQ', sec, frac) for (sec, frac) in raw_ts_pairs(a))
+        return le_bytes(np.asarray(a))
+    ok, tf_e = rec.guard('access:TdmsFile.read', lambda: TdmsFile.read(io.BytesIO(data), raw_timestamps=True))
+    ok2, tf_l = rec.guard('access:TdmsFile.open', lambda: TdmsFile.open(io.BytesIO(data), raw_timestamps=True))
+    if not (ok and ok2):
+        return
+    try:
+        for g in tf_l.groups():
+            for chl in g.channels():
+                p = chl.path
+                gn, cn = split_path(p)
+                ok, ref = rec.guard('access:lazy[:]', lambda: chl[:])
+                if not ok:
+                    continue
+                refb = norm(ref)
+                n = len(ref)
+                if len(chl) != n:
+                    rec.violation('agree:len', '%s: len(channel) %d but [:] has %d values' % (p, len(chl), n))
+                che = tf_e[gn][cn]
+                paths = [('eager[:]', lambda: che[:]), ('eager.data', lambda: che.data), ('lazy.read_data()', lambda: chl.read_data()),
+                         ('lazy iteration', lambda: None)]
+                for name, fn in paths[:3]:
+                    ok, got = rec.guard('access:' + name, fn)
+                    if ok and norm(got) != refb:
+                        rec.violation('agree:' + name, '%s: %s gives %d values %r, lazy [:] gives %d values %r' % (
+                            p, name, len(got), norm(got)[:24].hex(), n, refb[:24].hex()))
+                ok, parts = rec.guard('access:channel.data_chunks', lambda: [(c.offset, c[:]) for c in chl.data_chunks()])
+                if ok:
+                    if b''.join(norm(x) for (_o, x) in parts) != refb:
+                        rec.violation('agree:channel.data_chunks', '%s: concatenated chunks differ from lazy [:]' % p)
+                    pos = 0
+                    for (o, x) in parts:
+                        if o != pos:
+                            rec.violation('agree:chunk_offset', '%s: chunk offset %d, %d values delivered before' % (p, o, pos))
+                            break
+                        pos += len(x)
+                ok, parts = rec.guard('access:file.data_chunks', lambda: [c[gn][cn][:] for c in tf_l.data_chunks()])
+                if ok and b''.join(norm(x) for x in parts) != refb:
+                    rec.violation('agree:file.data_chunks', '%s: concatenated file chunks differ from lazy [:]' % p)
+                item = len(refb) // n if n else 0
+                for o in range(0, min(n, 12) + 1):
+                    for l in (1, 2, None):
+                        ok, got = rec.guard('access:lazy.read_data(o,l)', lambda: chl.read_data(o, l))
+                        if not ok:
+                            break
+                        want = ref[o:] if l is None else ref[o:o + l]
+                        if norm(got) != norm(want):
+                            rec.violation('agree:window', '%s: read_data(%d,%r) gives %r, [:][%d:...] is %r' % (
+                                p, o, l, norm(got)[:24].hex(), o, norm(want)[:24].hex()))
+                            break
+                for i in range(min(n, 12)):
+                    ok, got = rec.guard('access:lazy[i]', lambda: chl[i])
+                    if not ok:
+                        break
+                    if hasattr(got, 'second_fractions'):
+                        same = (got.seconds, got.second_fractions) == raw_ts_pairs(ref[i:i + 1])[0]
+                    else:
+                        # compared as values: a bool array may hold a non-canonical byte that a scalar cannot show
+                        same = bool(np.array_equal(np.asarray([got]), np.asarray(ref[i:i + 1]), equal_nan=True))
+                    if not same:
+                        rec.violation('agree:index', '%s[%d] = %r differs from [:][%d] = %r' % (p, i, got, i, ref[i]))
+                        break
+    finally:
+        tf_l.close()
+
+
+@st.composite
 def daqmx_cases(draw):
     from vf.daqmx import daqmx_file
     return {'fs': draw(daqmx_file(max_len=4)), 'memmap': draw(st.integers(0, 3)) == 0, 'as_path': draw(st.integers(0, 3)) == 0}
@@ -425,6 +527,7 @@ def jobs(tier):
         return [Job('files', 'hyp', lambda: cases(max_segments=5), n=2500),
                 Job('long_files_shared_offset_prefix', 'hyp', twin_cases, n=48),
                 Job('daqmx_files', 'hyp', daqmx_cases, n=800, check=check_daqmx),
+                Job('short_chunk_in_middle_segment', 'hyp', short_mid_cases, n=1200, check=check_short_mid),
                 Job('scaled_channels', 'hyp', _scaled_cases, n=800, check=check_scaled),
                 Job('every_scale_type', 'enum', sensor_scaled_cases(), exhaustive=True, check=check_scaled,
                     note='every scale type of the C14 matrix x 3 raw types: all access paths against the eager full read')]
@@ -432,6 +535,7 @@ def jobs(tier):
             Job('long_files_shared_offset_prefix', 'hyp', twin_cases, n=1500),
             Job('bigger', 'hyp', lambda: cases(max_segments=8, max_n=60, max_chunks=4), n=20000),
             Job('daqmx_files', 'hyp', daqmx_cases, n=30000, check=check_daqmx),
+            Job('short_chunk_in_middle_segment', 'hyp', short_mid_cases, n=40000, check=check_short_mid),
             Job('scaled_channels', 'hyp', _scaled_cases, n=30000, check=check_scaled),
             Job('every_scale_type', 'enum', sensor_scaled_cases(), exhaustive=True, check=check_scaled,
                 note='every scale type of the C14 matrix x 3 raw types: all access paths against the eager full read')]
